@@ -220,6 +220,10 @@ def run_case(chk: Check, sc: Scratch, idx: int, handlers, hl_name: str, nhealthy
             t.file(n, "cannot be inspected\n")
             inj.stat_errors[os.path.join(dfs, n.encode())] = errno.ENOENT if kind == "stat-ENOENT" else errno.EACCES
             faulty_names.append(n)
+    if len(set(faulty_names)) < len(faulty_names):
+        # two fault kinds that claim the same name (e.g. two kinds of .cap/<name>) cannot be in one directory
+        chk.count("pairs_skipped_same_name")
+        return
     if linkmode:
         stanzas = []
         for n in faulty_names:
